@@ -78,10 +78,10 @@ def _render(ctx: pyvc.Ctx, v: Any) -> str:
         return ctx.table.show(v)
     if isinstance(v, BaseException):
         return f"{type(v).__name__}"
-    if isinstance(v, (list, tuple)):
-        return "[" + ",".join(_render(ctx, x) for x in v) + "]"
     if isinstance(v, pyvc.SymSeq):
         return f"SymSeq({v.ident},{_render(ctx, v.elem)})"
+    if isinstance(v, (list, tuple)):
+        return "[" + ",".join(_render(ctx, x) for x in v) + "]"
     if isinstance(v, pyvc.SymInt):
         return f"int:{v.name}"
     if hasattr(v, "render"):
